@@ -681,15 +681,36 @@ def skip(index, rep):
     """when round 2 is not run or is abandoned, the stand-in for its results that round 3 starts from carries zero feed and zero
     biofuel: nothing but what a solved round found may be charged against human-edible food"""
     rule = "C03.SKIP"
-    fn = index.func(RUN, "ScenarioRunner.get_interpreted_results_for_round3_if_zero_feed")
     ras = index.func(RUN, "ScenarioRunner.run_and_analyze_scenario")
     cls = index.cls(RUN, "ScenarioRunner")
-    sites = [c for c in walk_no_nested(ras) if isinstance(c, ast.Call) and isinstance(c.func, ast.Attribute)
-             and c.func.attr == "get_interpreted_results_for_round3_if_zero_feed"]
-    if len(sites) < 2:
-        raise AnalysisError("run_and_analyze_scenario: the two skip paths (zero feed requested / round 2 abandoned) were not found")
-    params = [a.arg for a in fn.args.args][1:]
-    for k, site in enumerate(sorted(sites, key=lambda c: c.lineno)):
+    # the stand-in is found by its role: what run_round_3 is handed as round 2's results is, on every path, either what run_round_2 returned
+    # or what a stand-in builder (a method of the runner or a module-level function of the file) returned; each builder call is evaluated
+    from .core import pos_of as _pos_s
+    rr3 = index.func(RUN, "ScenarioRunner.run_round_3")
+    rr3_calls = [c for c in walk_no_nested(ras) if isinstance(c, ast.Call) and dotted(c.func) == "self.run_round_3"]
+    if len(rr3_calls) != 1:
+        raise AnalysisError("run_and_analyze_scenario: expected one call of run_round_3")
+    i_r2 = _pos_s(rr3, "interpreted_results_round2", 6, 15)
+    from .core import bind_args as _bas
+    b_ = _bas(rr3_calls[0], rr3)
+    p_r2 = [a.arg for a in rr3.args.args][1:][i_r2] if i_r2 is not None and i_r2 < len(rr3.args.args) - 1 else None
+    handed = b_.get(p_r2)
+    if not isinstance(handed, ast.Name):
+        raise AnalysisError("run_round_3: the argument standing for round 2's results is not a local of run_and_analyze_scenario")
+    methods_ = index.methods(RUN, "ScenarioRunner")
+    modfuncs_ = {f_.name: f_ for f_ in index.module(RUN).body if isinstance(f_, ast.FunctionDef)}
+    sites = []
+    for st_ in walk_no_nested(ras):
+        if isinstance(st_, ast.Assign) and any(isinstance(t_, ast.Name) and t_.id == handed.id for t_ in st_.targets) and isinstance(st_.value, ast.Call):
+            d_ = dotted(st_.value.func) or ""
+            if d_.startswith("self.") and d_[5:] in methods_ and not d_[5:].startswith("run_round"):
+                sites.append((st_.value, methods_[d_[5:]], True))
+            elif d_ in modfuncs_:
+                sites.append((st_.value, modfuncs_[d_], False))
+    if not sites:
+        raise AnalysisError("run_and_analyze_scenario: no stand-in for round 2's results (zero feed requested / round 2 abandoned) was found")
+    sites.sort(key=lambda t_: t_[0].lineno)
+    for k, (site, fn, as_method) in enumerate(sites):
         def runit(it, site=site):
             it.classes = {"ScenarioRunner": cls}
 
@@ -709,13 +730,13 @@ def skip(index, rep):
                 return NotImplemented
 
             it.call_hook = hook
-            args = [Obj(None, {}, f"arg{j}") if j == 0 else Rat.atom(NSYM) for j, _ in enumerate(site.args)]
-            for j in range(2, len(site.args)):
-                args[j] = Obj(None, {}, "caller:" + norm_src(site.args[j])[:30])
-            kwargs = {kw.arg: Obj(None, {}, "caller:" + norm_src(kw.value)[:30]) for kw in site.keywords if kw.arg}
-            return it.call_function(fn, args, kwargs, Obj(cls, {}, "self"))
+            # each parameter stands for what the call hands over: the number of months (the horizon), or an opaque object of the caller
+            kwargs = {}
+            for p_, e_ in _bas(site, fn, method=as_method).items():
+                kwargs[p_] = Rat.atom(NSYM) if "NMONTHS" in norm_src(e_) else Obj(None, {}, "caller:" + norm_src(e_)[:30])
+            return it.call_function(fn, [], kwargs, Obj(cls, {}, "self") if as_method else None)
 
-        label = "zero feed requested" if k == len(sites) - 1 else "round 2 abandoned"
+        label = ("zero feed requested" if k == len(sites) - 1 else "round 2 abandoned") if len(sites) > 1 else "round 2 not run or abandoned"
         try:
             leaves = explore(runit, month_classes=False)
         except Unsupported as e:
@@ -736,7 +757,7 @@ def skip(index, rep):
                 rep.check(zero, rule, f"stand-in[{label}]: {attr} is zero",
                           f"when {label}, round 3 starts from a stand-in whose {attr} is not the zero series: feed/biofuel that no round "
                           "found affordable is charged against human-edible food", loc=loc(RUN, site))
-    rep.require_min(rule, 4)
+    rep.require_min(rule, 2)
 
 
 def toothless(index, rep):
